@@ -96,7 +96,8 @@ def render(grammar):
     return "\n".join(out)
 
 
-def generate(grammar_text, repo="/repo"):
+def generate(grammar_text, repo=None):
+    repo = repo or os.environ.get("VERIF_REPO", "/repo")
     """run the working tree's generator on the grammar text; returns the generated module source"""
     if repo not in sys.path:
         sys.path.insert(0, repo)
